@@ -1,8 +1,12 @@
 package rules
 
 import (
+	"fmt"
+	"go/constant"
 	"go/token"
 	"go/types"
+	"sort"
+	"strings"
 
 	"golang.org/x/tools/go/ssa"
 
@@ -150,4 +154,350 @@ func (m *pop3Model) visitOf(fn *ssa.Function) (pop3Visit, bool) {
 		}
 	}
 	return out, n == 1
+}
+
+// visitorCallsOf lists the calls of the visitor parameter of a store's VisitMailboxes, in the
+// method itself or in a helper of the package that is handed the visitor.
+func (c *Ctx) visitorCallsOf(vm *ssa.Function) []*ssa.Call {
+	p := c.P
+	var out []*ssa.Call
+	var vfns []*ssa.Function
+	for g := range p.SyncReach(vm) {
+		if eng.FuncPkgPath(g) == eng.FuncPkgPath(vm) {
+			vfns = append(vfns, g)
+		}
+	}
+	sortFuncs(vfns)
+	for _, g := range vfns {
+		eng.EachInstr(g, func(in ssa.Instruction) {
+			call, ok := in.(*ssa.Call)
+			if !ok {
+				return
+			}
+			prm, isParam := call.Call.Value.(*ssa.Parameter)
+			if !isParam {
+				if u, isU := call.Call.Value.(*ssa.UnOp); isU {
+					if cell := eng.CellOf(u.X); cell != nil {
+						if sts := eng.CellStores(cell); len(sts) == 1 {
+							prm, isParam = sts[0].Val.(*ssa.Parameter)
+						}
+					}
+				}
+			}
+			if !isParam || !visitorSigOfType(prm.Type()) {
+				return
+			}
+			if av, isP := p.Actual(prm).(*ssa.Parameter); !isP || av.Parent() != vm {
+				return
+			}
+			out = append(out, call)
+		})
+	}
+	return out
+}
+
+// visitStops: the Store contract says the visitor is called "while it continues to return
+// true". Once a call of the visitor has answered false, no further call of it is reachable in
+// that VisitMailboxes: followed from the false edge of the call's result, through the returns of
+// the helper the call sits in (a result that is the same constant on every such return decides
+// the caller's branch on it) up to VisitMailboxes itself.
+func (c *Ctx) visitStops(rule string) int {
+	p, r := c.P, c.R
+	r.Rule(rule, "after the visitor has returned false no further visitor call is reachable within the same VisitMailboxes (followed through helper returns with the constant results of that path)")
+	n := 0
+	for _, rel := range []string{"pkg/storage/mem", "pkg/storage/file"} {
+		vm := p.Method(rel, "Store", "VisitMailboxes")
+		if vm == nil {
+			continue
+		}
+		calls := c.visitorCallsOf(vm)
+		isVis := map[ssa.Instruction]bool{}
+		holder := map[*ssa.Function]bool{}
+		for _, cl := range calls {
+			isVis[cl] = true
+			holder[cl.Parent()] = true
+		}
+		// functions through which a visitor call is reached
+		reaches := func(g *ssa.Function) bool {
+			if g == nil || !eng.InModule(g) {
+				return false
+			}
+			for h := range p.SyncReach(g) {
+				if holder[h] {
+					return true
+				}
+			}
+			return false
+		}
+		// callers of fn: static call sites, and — for a function literal handed to a helper of the
+		// package as a callback — the calls of a function value of its signature inside that helper
+		callersOf := func(fn *ssa.Function) []*ssa.Call {
+			var out []*ssa.Call
+			for _, cs := range p.StaticCallSites(fn) {
+				if cl, ok := cs.Instr.(*ssa.Call); ok {
+					out = append(out, cl)
+				}
+			}
+			if fn.Parent() == nil {
+				return out
+			}
+			seenG := map[*ssa.Function]bool{}
+			eng.EachInstr(fn.Parent(), func(x ssa.Instruction) {
+				cl, isCall := x.(*ssa.Call)
+				if !isCall {
+					return
+				}
+				g := eng.StaticCallee(cl.Common())
+				if g == nil || !eng.InModule(g) || seenG[g] {
+					return
+				}
+				for _, a := range cl.Call.Args {
+					mc, isMC := a.(*ssa.MakeClosure)
+					if !isMC || mc.Fn != ssa.Value(fn) {
+						continue
+					}
+					seenG[g] = true
+					scope := append([]*ssa.Function{g}, g.AnonFuncs...)
+					for _, h := range scope {
+						eng.EachInstr(h, func(y ssa.Instruction) {
+							c2, isC2 := y.(*ssa.Call)
+							if !isC2 || c2.Call.IsInvoke() || eng.StaticCallee(c2.Common()) != nil {
+								return
+							}
+							if types.Identical(c2.Call.Value.Type().Underlying(), fn.Signature) {
+								out = append(out, c2)
+							}
+						})
+					}
+				}
+			})
+			return out
+		}
+		// explore walks forward from (start, from) with what is known about boolean values and
+		// about the boolean held in local cells; it reports a visitor call that is still reachable
+		type kstate struct {
+			vals  map[ssa.Value]bool
+			cells map[ssa.Value]bool
+		}
+		cloneK := func(k kstate) kstate {
+			n := kstate{map[ssa.Value]bool{}, map[ssa.Value]bool{}}
+			for a, b := range k.vals {
+				n.vals[a] = b
+			}
+			for a, b := range k.cells {
+				n.cells[a] = b
+			}
+			return n
+		}
+		keyK := func(b *ssa.BasicBlock, k kstate) string {
+			var parts []string
+			for a, v := range k.cells {
+				parts = append(parts, fmt.Sprintf("%s=%v", a.Name(), v))
+			}
+			for a, v := range k.vals {
+				parts = append(parts, fmt.Sprintf("%s=%v", a.Name(), v))
+			}
+			sort.Strings(parts)
+			return fmt.Sprintf("%d|%s", b.Index, strings.Join(parts, ","))
+		}
+		boolOf := func(v ssa.Value, k kstate) (bool, bool) {
+			if c0, ok := v.(*ssa.Const); ok && c0.Value != nil && c0.Value.Kind() == constant.Bool {
+				return constant.BoolVal(c0.Value), true
+			}
+			if b, ok := k.vals[v]; ok {
+				return b, true
+			}
+			return false, false
+		}
+		var explore func(fn *ssa.Function, start *ssa.BasicBlock, from int, k0 kstate, depth int) ssa.Instruction
+		explore = func(fn *ssa.Function, start *ssa.BasicBlock, from int, k0 kstate, depth int) ssa.Instruction {
+			if depth > 4 {
+				return nil
+			}
+			seen := map[string]bool{}
+			type retK struct {
+				rt *ssa.Return
+				k  kstate
+			}
+			var rets []retK
+			var bad ssa.Instruction
+			var walk func(b *ssa.BasicBlock, i0 int, k kstate, pred *ssa.BasicBlock)
+			walk = func(b *ssa.BasicBlock, i0 int, k kstate, pred *ssa.BasicBlock) {
+				if bad != nil {
+					return
+				}
+				if i0 == 0 {
+					key := keyK(b, k)
+					if pred != nil {
+						key += fmt.Sprintf("<%d", pred.Index)
+					}
+					if seen[key] || len(seen) > 4000 {
+						return
+					}
+					seen[key] = true
+				}
+				k = cloneK(k)
+				for i := i0; i < len(b.Instrs); i++ {
+					in := b.Instrs[i]
+					if isVis[in] {
+						bad = in
+						return
+					}
+					switch x := in.(type) {
+					case *ssa.Call:
+						if g := eng.StaticCallee(x.Common()); g != nil && eng.FuncPkgPath(g) == eng.FuncPkgPath(vm) && reaches(g) {
+							bad = in
+							return
+						}
+						// a callback of the visitor-holding kind invoked again
+						if eng.StaticCallee(x.Common()) == nil && !x.Call.IsInvoke() {
+							for h := range holder {
+								if h.Parent() != nil && types.Identical(x.Call.Value.Type().Underlying(), h.Signature) {
+									bad = in
+									return
+								}
+							}
+						}
+					case *ssa.Store:
+						if _, isAl := x.Addr.(*ssa.Alloc); isAl {
+							if bv, ok := boolOf(x.Val, k); ok {
+								k.cells[x.Addr] = bv
+							} else {
+								delete(k.cells, x.Addr)
+							}
+						}
+					case *ssa.UnOp:
+						if x.Op == token.MUL {
+							if bv, ok := k.cells[x.X]; ok {
+								k.vals[x] = bv
+							}
+						}
+						if x.Op == token.NOT {
+							if bv, ok := boolOf(x.X, k); ok {
+								k.vals[x] = !bv
+							}
+						}
+					case *ssa.Phi:
+						// the edge this path came in by
+						if pred != nil {
+							for pi, pb := range b.Preds {
+								if pb == pred && pi < len(x.Edges) {
+									if bv, ok := boolOf(x.Edges[pi], k); ok {
+										k.vals[x] = bv
+									} else {
+										delete(k.vals, x)
+									}
+								}
+							}
+						}
+					case *ssa.Return:
+						rets = append(rets, retK{x, k})
+					}
+				}
+				for e, sb := range b.Succs {
+					if len(b.Succs) == 2 {
+						if v, pol, ok := eng.CondTruth(b, e); ok {
+							if kv, has := boolOf(v, k); has && kv != pol {
+								continue
+							}
+						}
+					}
+					walk(sb, 0, k, b)
+				}
+			}
+			walk(start, from, k0, nil)
+			if bad != nil || fn == vm {
+				return bad
+			}
+			// what the callers see: a result that has one known boolean value on every return reached
+			nres := fn.Signature.Results().Len()
+			constAt := make([]*bool, nres)
+			for i := 0; i < nres; i++ {
+				var val *bool
+				same := len(rets) > 0
+				for _, rk := range rets {
+					rv := rk.rt.Results[i]
+					bv, ok := boolOf(rv, rk.k)
+					if !ok {
+						bv, ok = boolOf(eng.ResolveLocalLoad(rv), rk.k)
+					}
+					if !ok || (val != nil && *val != bv) {
+						same = false
+						break
+					}
+					val = &bv
+				}
+				if same {
+					constAt[i] = val
+				}
+			}
+			for _, cl := range callersOf(fn) {
+				kn := kstate{map[ssa.Value]bool{}, map[ssa.Value]bool{}}
+				if nres == 1 && constAt[0] != nil {
+					kn.vals[cl] = *constAt[0]
+				}
+				if cl.Referrers() != nil {
+					for _, ref := range *cl.Referrers() {
+						if ex, ok := ref.(*ssa.Extract); ok && ex.Index < nres && constAt[ex.Index] != nil {
+							kn.vals[ex] = *constAt[ex.Index]
+						}
+					}
+				}
+				idx := 0
+				for i, x := range cl.Block().Instrs {
+					if x == ssa.Instruction(cl) {
+						idx = i
+					}
+				}
+				if hit := explore(cl.Parent(), cl.Block(), idx+1, kn, depth+1); hit != nil {
+					return hit
+				}
+			}
+			return nil
+		}
+		for _, cl := range calls {
+			n++
+			cons := "visitor@" + shortFn(cl.Parent())
+			var hit ssa.Instruction
+			found := false
+			k0 := kstate{map[ssa.Value]bool{cl: false}, map[ssa.Value]bool{}}
+			for _, b := range cl.Parent().Blocks {
+				if len(b.Succs) != 2 {
+					continue
+				}
+				for k := 0; k < 2; k++ {
+					v, pol, ok := eng.CondTruth(b, k)
+					if !ok || pol || v != ssa.Value(cl) {
+						continue
+					}
+					found = true
+					if h := explore(cl.Parent(), b.Succs[k], 0, k0, 0); h != nil {
+						hit = h
+					}
+				}
+			}
+			if !found {
+				// the answer is handed on (returned, or kept in a variable): follow it from the call
+				idx := 0
+				for i, x := range cl.Block().Instrs {
+					if x == ssa.Instruction(cl) {
+						idx = i
+					}
+				}
+				if cl.Referrers() != nil && len(*cl.Referrers()) > 0 {
+					found = true
+					hit = explore(cl.Parent(), cl.Block(), idx+1, k0, 0)
+				}
+			}
+			switch {
+			case !found:
+				r.Bad(rule, cons, p.InstrPos(cl), "the visitor's answer is not used: the walk cannot be stopped")
+			case hit != nil:
+				r.Bad(rule, cons, p.InstrPos(cl), "after the visitor has answered false here the walk can still reach %s and call it again: a scan that asked to stop (shutdown, a limit reached) is handed further mailboxes, and the two stores no longer behave alike", p.InstrPos(hit))
+			default:
+				r.Ok(rule, cons, p.InstrPos(cl), "a false answer ends the walk: no further visitor call is reachable")
+			}
+		}
+	}
+	return n
 }
